@@ -62,65 +62,17 @@ Lemma balance_region_filters_ok : Gen_C11.balance_region_filters =
    "filter.NewRegionScoreFilter(s.GetName(), plan.source, plan.cluster.GetOpts())"; "filter.NewSpecialUseFilter(s.GetName())";
    "&filter.StoreStateFilter{ActionScope: s.GetName(), MoveRegion: true}"].
 Proof. reflexivity. Qed.
-Lemma balance_region_new_peer_ok : Gen_C11.balance_region_new_peer = "&metapb.Peer{StoreId: plan.target.GetID(), Role: oldPeer.Role}".
-Proof. reflexivity. Qed.
-Lemma skel_transferPeer_ok : Gen_C11.skel_transferPeer =
-  [Call "NewCandidates"; Call "FilterTarget"; Call "Sort"; ForE [Call "shouldBalance"; Call "GetStorePeer"; Call "CreateMovePeerOperator"; IfE "err != nil" [Ret] []; Ret]; Ret].
-Proof. reflexivity. Qed.
-Lemma shuffle_add_peer_ok : Gen_C11.src_shuffle_scheduleAddPeer =
-  "{ scoreGuard := filter.NewPlacementSafeguard(s.GetName(), cluster, region, cluster.GetStore(oldPeer.GetStoreId())) excludedFilter := filter.NewExcludedFilter(s.GetName(), nil, region.GetStoreIds()) target := filter.NewCandidates(cluster.GetStores()). FilterTarget(cluster.GetOpts(), s.filters...). FilterTarget(cluster.GetOpts(), scoreGuard, excludedFilter). RandomPick() if target == nil { return nil } return &metapb.Peer{StoreId: target.GetID(), Role: oldPeer.GetRole()} }".
-Proof. reflexivity. Qed.
-Lemma skel_balance_leader_ok :
-  Gen_C11.skel_transferLeaderOut =
-    [Call "RandLeaderRegion"; IfE "plan.region == nil" [Ret] []; Call "GetFollowerStores"; Call "NewPlacementLeaderSafeguard"; Call "SelectTargetStores";
-     DeferE [Ret]; ForE [Call "createOperator"; IfE "len(op) > 0" [Ret] []]; Ret]
-  /\ Gen_C11.skel_transferLeaderIn =
-    [Call "RandFollowerRegion"; IfE "plan.region == nil" [Ret] []; Call "GetStore"; IfE "plan.source == nil" [Ret] []; Call "NewPlacementLeaderSafeguard";
-     Call "NewCandidates"; Call "FilterTarget"; Call "PickFirst"; IfE "target == nil" [Ret] []; Call "createOperator"; Ret].
-Proof. split; reflexivity. Qed.
 
 (* ---------- the scatterer ---------- *)
 (* the excluded set is built from the stores selected so far AND the stores of the region's other peers (see src_selectCandidates_ok) *)
-Lemma scatter_candidate_filters_ok : Gen_C11.scatter_candidate_filters = ["filter.NewExcludedFilter(r.name, nil, excluded)"].
-Proof. reflexivity. Qed.
-Lemma skel_scatterRegion_ok : Gen_C11.skel_scatterRegion =
-  [Call "NewOrdinaryEngineFilter"; ForE [Call "Target"]; Assign "targetPeers" ":= make(map[uint64]*metapb.Peer)"; Assign "selectedStores" ":= make(map[uint64]struct{})";
-   DeferE [ForE [Call "selectCandidates"; Call "selectStore"]]; Call "scatterWithSameEngine"; Call "selectAvailableLeaderStores";
-   ForE [IfE "!ok" [Call "NewEngineFilter"; Call "newEngineContext"] []; Call "scatterWithSameEngine"]; Call "CreateScatterRegionOperator";
-   IfE "err != nil" [Call "Put"; Ret] []; IfE "op != nil" [Call "Put"] []; Ret].
-Proof. reflexivity. Qed.
-Lemma src_selectStore_ok : Gen_C11.src_selectStore =
-  "{ if len(candidates) < 1 { return peer } var newPeer *metapb.Peer minCount := uint64(math.MaxUint64) for _, storeID := range candidates { count := context.selectedPeer.Get(storeID, group) if count < minCount { minCount = count newPeer = &metapb.Peer{ StoreId: storeID, Role: peer.GetRole(), } } } for _, storeID := range candidates { if storeID == sourceStoreID && context.selectedPeer.Get(sourceStoreID, group) <= minCount { return peer } } if newPeer == nil { return peer } return newPeer }".
-Proof. reflexivity. Qed.
-Lemma src_selectCandidates_ok : Gen_C11.src_selectCandidates =
-  "{ sourceStore := r.cluster.GetStore(sourceStoreID) if sourceStore == nil { log.Error(""failed to get the store"", zap.Uint64(""store-id"", sourceStoreID), errs.ZapError(errs.ErrGetSourceStore)) return nil } excluded := make(map[uint64]struct{}, len(selectedStores)+len(region.GetPeers())) for id := range selectedStores { excluded[id] = struct{}{} } for id := range region.GetStoreIds() { if id != sourceStoreID { excluded[id] = struct{}{} } } filters := []filter.Filter{ filter.NewExcludedFilter(r.name, nil, excluded), } scoreGuard := filter.NewPlacementSafeguard(r.name, r.cluster, region, sourceStore) filters = append(filters, context.filters...) filters = append(filters, scoreGuard) stores := r.cluster.GetStores() candidates := make([]uint64, 0) maxStoreTotalCount := uint64(0) minStoreTotalCount := uint64(math.MaxUint64) for _, store := range r.cluster.GetStores() { count := context.selectedPeer.TotalCountByStore(store.GetID()) if count > maxStoreTotalCount { maxStoreTotalCount = count } if count < minStoreTotalCount { minStoreTotalCount = count } } for _, store := range stores { storeCount := context.selectedPeer.TotalCountByStore(store.GetID()) if storeCount < maxStoreTotalCount || maxStoreTotalCount == minStoreTotalCount { if filter.Target(r.cluster.GetOpts(), store, filters) { candidates = append(candidates, store.GetID()) } } } return candidates }".
-Proof. reflexivity. Qed.
-Lemma skel_scatter_rest_ok :
-  Gen_C11.skel_selectAvailableLeaderStores = [ForE [Call "Get"]; Ret]
-  /\ Gen_C11.skel_Put = [Call "NewOrdinaryEngineFilter"; ForE [Call "Target"; IfE "ordinaryFilter.Target(r.cluster.GetOpts(), store)" [Call "Put"] [Call "Put"]]; Call "Put"].
-Proof. split; reflexivity. Qed.
-Lemma chains_ok :
-  Gen_C11.chain_CreateScatterRegionOperator =
-    ["NewBuilder(desc, cluster, origin)"; "SetPeers(targetPeers)"; "SetLeader(leader)"; "EnableLightWeight()"; "EnableForceTargetLeader()"; "Build(0)"]
-  /\ Gen_C11.chain_CreateMovePeerOperator = ["NewBuilder(desc, cluster, region)"; "RemovePeer(oldStore)"; "AddPeer(peer)"; "Build(kind)"]
-  /\ Gen_C11.chain_CreateTransferLeaderOperator = ["NewBuilder(desc, cluster, region, SkipOriginJointStateCheck)"; "SetLeader(targetStoreID)"; "Build(kind)"].
-Proof. repeat split; reflexivity. Qed.
 
 (* ---------- the remaining schedulers ---------- *)
-Lemma shuffle_hot_filters_ok : Gen_C11.shuffle_hot_filters = ["&filter.StoreStateFilter{ActionScope: s.GetName(), MoveRegion: true}"; "filter.NewExcludedFilter(s.GetName(), srcRegion.GetStoreIds(), srcRegion.GetStoreIds())"; "filter.NewPlacementSafeguard(s.GetName(), cluster, srcRegion, srcStore)"].
-Proof. reflexivity. Qed.
 Lemma move_leader_chain_ok : Gen_C11.chain_CreateMoveLeaderOperator = ["NewBuilder(desc, cluster, region)"; "RemovePeer(oldStore)"; "AddPeer(peer)"; "SetLeader(peer.GetStoreId())"; "Build(kind)"].
 Proof. reflexivity. Qed.
 Lemma skel_grant_ok : Gen_C11.skel_grant_Schedule = [RLock "s.conf.mu"; DeferRUnlock "s.conf.mu"; ForE [Call "RandFollowerRegion"; Call "CreateForceTransferLeaderOperator"]; Ret].
 Proof. reflexivity. Qed.
-Lemma skel_scatter_range_ok : Gen_C11.skel_scatter_range_Schedule = [Call "allowBalanceLeader"; IfE "l.allowBalanceLeader(cluster)" [Call "Schedule"; IfE "len(ops) > 0" [Call "SetDesc"; Ret] []] []; Call "allowBalanceRegion"; IfE "l.allowBalanceRegion(cluster)" [Call "Schedule"; IfE "len(ops) > 0" [Call "SetDesc"; Ret] []] []; Ret].
-Proof. reflexivity. Qed.
-Lemma src_hot_filterDstStores_ok : Gen_C11.src_hot_filterDstStores =
-  "{ var ( filters []filter.Filter candidates []*core.StoreInfo ) srcStore := bs.cluster.GetStore(bs.cur.srcStoreID) if srcStore == nil { return nil } switch bs.opTy { case movePeer: filters = []filter.Filter{ &filter.StoreStateFilter{ActionScope: bs.sche.GetName(), MoveRegion: true}, filter.NewExcludedFilter(bs.sche.GetName(), bs.cur.region.GetStoreIds(), bs.cur.region.GetStoreIds()), filter.NewSpecialUseFilter(bs.sche.GetName(), filter.SpecialUseHotRegion), filter.NewPlacementSafeguard(bs.sche.GetName(), bs.cluster, bs.cur.region, srcStore), } for storeID := range bs.stLoadDetail { candidates = append(candidates, bs.cluster.GetStore(storeID)) } case transferLeader: filters = []filter.Filter{ &filter.StoreStateFilter{ActionScope: bs.sche.GetName(), TransferLeader: true}, filter.NewSpecialUseFilter(bs.sche.GetName(), filter.SpecialUseHotRegion), } if leaderFilter := filter.NewPlacementLeaderSafeguard(bs.sche.GetName(), bs.cluster, bs.cur.region, srcStore); leaderFilter != nil { filters = append(filters, leaderFilter) } for _, store := range bs.cluster.GetFollowerStores(bs.cur.region) { if _, ok := bs.stLoadDetail[store.GetID()]; ok { candidates = append(candidates, store) } } default: return nil } return bs.pickDstStores(filters, candidates) }".
-Proof. reflexivity. Qed.
 
 (* the leader candidates: target stores without an engine label whose labels do not reject leaders; all ordinary target stores
    only if every one rejects leaders *)
-Lemma src_selectAvailableLeaderStores_ok : Gen_C11.src_selectAvailableLeaderStores =
-  "{ leaderCandidateStores := make([]uint64, 0) for storeID := range peers { store := r.cluster.GetStore(storeID) engine := store.GetLabelValue(filter.EngineKey) if len(engine) < 1 && !r.cluster.GetOpts().CheckLabelProperty(opt.RejectLeader, store.GetLabels()) { leaderCandidateStores = append(leaderCandidateStores, storeID) } } minStoreGroupLeader := uint64(math.MaxUint64) id := uint64(0) if len(leaderCandidateStores) == 0 { for storeID := range peers { if len(r.cluster.GetStore(storeID).GetLabelValue(filter.EngineKey)) < 1 { leaderCandidateStores = append(leaderCandidateStores, storeID) } } } for _, storeID := range leaderCandidateStores { storeGroupLeaderCount := context.selectedLeader.Get(storeID, group) if minStoreGroupLeader > storeGroupLeaderCount { minStoreGroupLeader = storeGroupLeaderCount id = storeID } } return id }".
-Proof. reflexivity. Qed.
+
+(* ---------- "all filters must pass": the unmodelled filters act in conjunction ---------- *)
